@@ -78,6 +78,13 @@ type image struct {
 	Live   int      // verdict of the in-place check: index of the first unreadable available object, -1 if none
 }
 
+// discard removes the scratch directory of an execution that is not checked by this worker.
+func discard(x *sched.Exec) {
+	if res, _ := x.Result.(*result); res != nil && res.Root != "" {
+		os.RemoveAll(res.Root)
+	}
+}
+
 // liveCheck judges the current on-disk state in place: every address the (live) metabase reports
 // as available must be readable, identical, from the blobstor tree or the write-cache tree.
 func liveCheck(w *ss.World, res *result) int {
@@ -255,7 +262,7 @@ func scenario(wc bool, depth int, pre int) sched.Scenario {
 		return map[string]int{"crash_points": res.Points, "distinct_crash_images_checked": res.checked, "crash_images_copied_and_reopened_offline": res.reopened, "available_objects_read_back": res.avail}
 	}
 	return sched.Scenario{Name: name, Opt: sched.Options{PreemptBound: pre, FaultBound: depth, FreeBound: -1, MaxSteps: 8000,
-		Setup: func(s *sched.S) { s.TimerFires = 2 }}, Body: body, Check: check, Outcome: outcome, Counters: counters}
+		Setup: func(s *sched.S) { s.TimerFires = 2 }}, Body: body, Check: check, Outcome: outcome, Counters: counters, Discard: discard}
 }
 
 // concurrent is the closed flush/removal/new-upload scenario: A and C (small, one flush batch) are
@@ -341,7 +348,7 @@ func concurrent(early bool, pre int) sched.Scenario {
 	}
 	sc := scenario(true, 0, pre) // oracle, outcome and counters are shared
 	return sched.Scenario{Name: name, Opt: sched.Options{PreemptBound: pre, FaultBound: 0, FreeBound: 1, MaxSteps: 8000,
-		Setup: func(s *sched.S) { s.TimerFires = 5 }}, Body: body, Check: sc.Check, Outcome: sc.Outcome, Counters: sc.Counters}
+		Setup: func(s *sched.S) { s.TimerFires = 5 }}, Body: body, Check: sc.Check, Outcome: sc.Outcome, Counters: sc.Counters, Discard: discard}
 }
 
 // checkImage opens the metabase of a crash image read-only and checks that every address it
